@@ -30,6 +30,15 @@ INSTRUMENTED = [
     "internal/network/mqtt/buffer.go",
     "internal/service/cluster/peer.go",
     "internal/event/crdt/volatile.go",
+    "internal/event/crdt/map.go",
+    "internal/message/codec.go",
+    "internal/message/message.go",
+    "internal/security/channel.go",
+    "internal/security/key.go",
+    "internal/security/cipher/base64.go",
+    "internal/security/cipher/salsa.go",
+    "internal/security/cipher/shuffle.go",
+    "internal/security/cipher/xtea.go",
 ]
 
 # module-cache files extended by appending text (path in module cache, appended file)
@@ -147,6 +156,8 @@ def main():
                   if os.path.isdir(os.path.join(VERIF, "harness", d))
                   and ((only and d in only) or (not only and (claimed is None or d in claimed))))
     reg = "package main\n\nimport (\n" + "".join('\t_ "%s/internal/verifx/%s"\n' % (MOD, d) for d in pkgs) + ")\n"
+    if kind == "sched":
+        reg = reg.replace("import (\n", 'import (\n\t"%s/internal/verifx/engine/core"\n' % MOD, 1) + "\nfunc init() { core.Instrumented = true }\n"
     regpath = os.path.join(gen, "checks_gen.go")
     if not os.path.exists(regpath) or open(regpath).read() != reg:
         open(regpath, "w").write(reg)
